@@ -11,7 +11,7 @@ namespace vfsched {
 
 struct Event { int slot; int kind; long arg; };
 
-enum Strategy { UNIFORM = 0, PCT = 1, RUN_TO_BLOCK = 2, STARVE_ONE = 3 };
+enum Strategy { UNIFORM = 0, PCT = 1, RUN_TO_BLOCK = 2, STARVE_ONE = 3, DFS_REPLAY = 4 };
 
 struct Config {
   uint64_t seed = 1;
@@ -21,11 +21,18 @@ struct Config {
   bool ordered = true;           // synchronised (token ring) mode expected
   std::vector<long> expect_frames;  // steps of the selected frames in file order
   bool expect_error = false;     // run expected to throw before threads start
+  // DFS_REPLAY: index (into the sorted enabled list) to take at the k-th decision with >1 enabled thread; after the
+  // prefix is used up index 0 is taken. Used for systematic (stateless depth-first) enumeration of all interleavings.
+  std::vector<int> prefix;
+  // preemption bound for DFS_REPLAY (<0: none): a decision that switches away from a still-enabled running thread costs 1
+  int preemption_bound = -1;
 };
 
 struct Result {
   std::vector<Event> trace;
   std::vector<int> decisions;          // chosen slot at every decision with >1 enabled
+  std::vector<int> choice_index;       // DFS: index taken at every such decision
+  std::vector<int> choice_count;       // DFS: number of admissible alternatives at that decision
   uint64_t interleaving_hash = 0;
   int max_enabled = 0;                 // max number of enabled threads at a decision
   int threads = 0;
